@@ -203,6 +203,36 @@ func propC11(c *ctx) error {
 		}
 	}
 	res.Distribution["edge_pairs"] = len(edgeInts) * len(edgeFloats)
+	// zeros of either sign, carried by every kind: -0.0 and 0.0 (and the integer 0) are equal, neither is smaller
+	{
+		negz := math.Copysign(0, -1)
+		zs := []numOperand{{vF64(negz), "a", nil, "float64 -0"}, {vF64(0), "a", nil, "float64 +0"}, {vF32(float32(negz)), "a", nil, "float32 -0"},
+			{vInt(0), "a", nil, "int 0"}, {vNil(), "-0.0", nil, "literal -0.0"}, {vNil(), "0.0", nil, "literal 0.0"}, {vNil(), "-f", nil, "negated +0 variable"}, {vNil(), "f * -1", nil, "product"}}
+		for _, x := range zs {
+			for _, y := range zs {
+				yy := y
+				if yy.expr == "a" {
+					yy.expr = "b"
+				}
+				data := vMap(kv{"a", x.v}, kv{"b", y.v}, kv{"f", vF64(0)})
+				got, _, err := evalPair(x, yy, data)
+				if err != nil {
+					return err
+				}
+				res.eval("zero|"+x.desc+"|"+y.desc, true, J{"a": x.expr, "b": yy.expr})
+				res.S3Checked++
+				res.count("signed_zero_pairs")
+				want := map[string]bool{"<": false, "==": true, ">": false, "<=": true, ">=": true, "!=": false}
+				for _, op := range ops {
+					ws := fmt.Sprintf("ok:bool:%v", want[op])
+					if got[op] != ws {
+						res.violate(J{"src": x.expr + " " + op + " " + yy.expr, "a": x.desc, "b": y.desc}, ws, got[op], "zeros of different sign or kind do not compare equal")
+						break
+					}
+				}
+			}
+		}
+	}
 	// float32 against float64 around float32's rounding: a float32 operand stands for the float64 value it widens to
 	// exactly, in == as in the ordering operators (0.1 as float32 is NOT 0.1)
 	{
